@@ -38,6 +38,27 @@ MUTATIONS = [
     {"name": "c13_long_form_uses_rcx", "props": ["C13"], "edits": [(AMD, "const MOV_RAX_OPCODE: [u8; 2] = [0x48, 0xB8];", "const MOV_RAX_OPCODE: [u8; 2] = [0x48, 0xB9];"), (AMD, "const JMP_RAX_OPCODE: [u8; 2] = [0xFF, 0xE0];", "const JMP_RAX_OPCODE: [u8; 2] = [0xFF, 0xE1];")]},
     # ---- C10
     {"name": "c10_stub_ret8", "props": ["C10"], "edits": [(AMD, "        0xC3, // ret", "        0xC2, // ret imm16 (truncated)")]},
+    # ---- C05
+    {"name": "c05_verifier_panics_while_unwinding", "props": ["C05"], "edits": [(VERIFIER, "                if std::thread::panicking() {\n                    return;\n                }\n", "")]},
+    {"name": "c05_plain_mutex_poisoned", "props": ["C05", "C04"], "edits": [(INJ, "            Err(poisoned) => {\n                // Swallow the poison and give the guard anyway\n                poisoned.into_inner()\n            }", "            Err(poisoned) => {\n                panic!(\"lock poisoned: {poisoned}\")\n            }")]},
+    {"name": "c05_signature_checked_after_patching", "props": ["C05", "C09"], "edits": [(INJ, """    pub fn will_execute_raw(self, target: FuncPtr) {
+        if target.signature != self.expected_signature {
+            panic!(
+                "Signature mismatch: expected {:?} but got {:?}",
+                self.expected_signature, target.signature
+            );
+        }
+
+        let guard = self.when.will_execute_guard(target.func_ptr_internal);
+        self.lib.guards.push(guard);""", """    pub fn will_execute_raw(self, target: FuncPtr) {
+        let mismatch = target.signature != self.expected_signature;
+        let (exp, got) = (self.expected_signature, target.signature);
+        let guard = self.when.will_execute_guard(target.func_ptr_internal);
+        if mismatch {
+            panic!("Signature mismatch: expected {:?} but got {:?}", exp, got);
+        }
+        self.lib.guards.push(guard);""")]},
+    {"name": "c05_guard_forgotten_when_unwinding", "props": ["C05", "C02"], "edits": [(INJ, "        while let Some(guard) = self.guards.pop() {\n            drop(guard);\n        }", "        while let Some(guard) = self.guards.pop() {\n            if std::thread::panicking() && self.guards.len() >= 2 {\n                std::mem::forget(guard);\n                continue;\n            }\n            drop(guard);\n        }")]},
     # ---- C06 / C07
     {"name": "c07_counter_never_reset", "props": ["C07"], "edits": [(INJ, "            counter.store(0, std::sync::atomic::Ordering::SeqCst);", "            let _ = counter;")]},
     {"name": "c07_reset_to_one", "props": ["C07", "C06"], "edits": [(INJ, "            counter.store(0, std::sync::atomic::Ordering::SeqCst);", "            counter.store(1, std::sync::atomic::Ordering::SeqCst);")]},
